@@ -118,6 +118,8 @@ type Scenario struct {
 	Assume map[string]bool
 	// ZeroRecv: slice fields of the receiver that the scenario does not define are empty (fresh object).
 	ZeroRecv bool
+	// NoDefaultInline switches off the default (unexported helpers of the root function's package are evaluated in place).
+	NoDefaultInline bool
 	// InlineGo evaluates the body of `go f()` in place when f is inlinable.
 	InlineGo bool
 	// MaxVisit bounds how often one block may be entered on a path (loop unrolling bound; default 3).
@@ -177,7 +179,8 @@ func (f *symFrame) clone() *symFrame {
 }
 
 type symEval struct {
-	curCall  *ssa.Call // the call being modelled (for models that need static types)
+	root     *ssa.Function // the function under evaluation
+	curCall  *ssa.Call     // the call being modelled (for models that need static types)
 	closures map[string]SV
 	sc       *Scenario
 	counter  int
@@ -212,6 +215,7 @@ func evalPaths(fn *ssa.Function, sc *Scenario) ([]Path, error) {
 			args[i] = defaultFor(p.Type(), id)
 		}
 	}
+	ev.root = fn
 	outs := ev.call(fn, args, nil, st, 0)
 	var res []Path
 	for _, o := range outs {
@@ -280,6 +284,25 @@ func (ev *symEval) call(fn *ssa.Function, args []SV, bindings []SV, st *symState
 		}
 	}
 	return ev.runBlock(fr, fn.Blocks[0], 0, st)
+}
+
+// inline decides whether a static callee is evaluated in place. A scenario may say so explicitly; by
+// default the unexported helpers of the package of the function under evaluation are (a helper extracted
+// from the function is still part of what the rule is about), everything else is a modelled/opaque call.
+func (ev *symEval) inline(f *ssa.Function) bool {
+	if ev.sc.Inline != nil && ev.sc.Inline(f) {
+		return true
+	}
+	if ev.sc.NoDefaultInline {
+		return false
+	}
+	if ev.root == nil || f.Pkg == nil || ev.root.Pkg == nil || f.Pkg != ev.root.Pkg || f == ev.root {
+		return false
+	}
+	if f.Parent() != nil {
+		return false // closures are evaluated where they are called through their value
+	}
+	return !token.IsExported(f.Name())
 }
 
 func (ev *symEval) val(fr *symFrame, v ssa.Value) SV {
@@ -655,7 +678,7 @@ func (ev *symEval) doCall(fr *symFrame, st *symState, x *ssa.Call) ([]outcome, b
 	ev.curCall = x
 	// a slice handed to a callee (or the destination of copy) may be overwritten: its elements are no longer the zero values of make
 	inlinable := false
-	if f := cc.StaticCallee(); f != nil && ev.sc.Inline != nil && ev.sc.Inline(f) && len(f.Blocks) > 0 {
+	if f := cc.StaticCallee(); f != nil && ev.inline(f) && len(f.Blocks) > 0 {
 		inlinable = true
 	}
 	if id != "builtin len" && id != "builtin cap" && id != "builtin append" && !inlinable {
@@ -744,12 +767,18 @@ func (ev *symEval) doCall(fr *symFrame, st *symState, x *ssa.Call) ([]outcome, b
 			return nil, false
 		}
 	}
-	if f := cc.StaticCallee(); f != nil && ev.sc.Inline != nil && ev.sc.Inline(f) && fr.depth < 6 && len(f.Blocks) > 0 {
+	if f := cc.StaticCallee(); f != nil && ev.inline(f) && fr.depth < 6 && len(f.Blocks) > 0 {
 		var bind []SV
 		if mc, ok := cc.Value.(*ssa.MakeClosure); ok {
 			for _, b := range mc.Bindings {
 				bind = append(bind, ev.val(fr, b))
 			}
+		}
+		if ev.sc.Inline == nil || !ev.sc.Inline(f) {
+			// a helper evaluated in place by default still shows as a call (rules that look for it by name keep working)
+			e := ev.callEvent(fr, "call", x)
+			e.Note = "inlined"
+			st.trace = append(st.trace, e)
 		}
 		outs := ev.call(f, args, bind, st, fr.depth+1)
 		return outs, true
